@@ -17,6 +17,7 @@ import Driver.FamLoopRange
 import Driver.FamCharPartition
 import Driver.FamLiteral
 import Driver.FamMinimize
+import Driver.FamStrings
 
 open Driver
 
@@ -43,6 +44,7 @@ def dispatch (fam op : String) (args : List String) : Option Reply :=
   | "cp" => FamCharPartition.handle op args
   | "lit" => FamLiteral.handle op args
   | "min" => FamMinimize.handle op args
+  | "str" => FamStrings.handle op args
   | _ => none
 
 def splitArrow (line : String) : Option (String × String) :=
